@@ -214,6 +214,8 @@ def step (st : DState) (line : String) : DState × String :=
     let sd := unhex seed
     let kp := Dil.keypair shake128 shake256 (shake256 sd 32)
     ({ st with dkeys := putK st.dkeys id (kp, sd) }, s!"ok pk={hx kp.pk} sk={hx kp.sk}")
+  | ["dl.filled", seed] =>   -- hypothesis `Expanded` of C03.verify_sign, evaluated on this seed
+    (st, s!"ok {Dil.keygenFilled shake128 shake256 (shake256 (unhex seed) 32)}")
   | ["dl.newhex", hs] =>
     (st, showO (fun (kp : Dil.KeyPair) => s!"pk={hx kp.pk} sk={hx kp.sk}") (Dil.fromHexSeed shake128 shake256 (unhex hs)))
   | ["dl.newmn", m] =>
